@@ -28,7 +28,7 @@ def _bounded(tier):
 PROP = Prop(
     'C08',
     contracts=[REGISTRY[f] for f in FUNCS],
-    claims=['*'],
+    claims=['*', '!*C10.*', '!*C11.*', '!*C12.*', '!*.cover.*'],
     native_default=native_c08.native_for,
     bounded=[_bounded],
     not_decided=['TreeDisplay.TreeTag.tpRender / tpRenderTABLE (dtml-tree) push and pop the namespace too; they are not under '
